@@ -1,2 +1,3 @@
 import Dalek.Props.C10.NonInterference
 import Dalek.Props.C10.BranchSites
+import Dalek.Props.C10.Vector
